@@ -61,15 +61,24 @@ package ecs
 // including the documented maximum (C18: "the documented maximum ... can be registered and all of
 // them used").
 
+// every set bit below the number of registered ids is listed (C18 "all of them used", C20: the
+// 256-bit and the 64-bit conversion agree on histories within 64 ids)
+//@ spec func idListed(xs []ID, n int, c uint8) bool := exists k int :: 0 <= k && k < n && xs[k].id == c
+
 //@ func (*bitMask256).toTypes
-//@   serves C18
+//@   serves C18 C20
 //@   requires reg != nil && 0 <= len(reg.Components) && len(reg.Components) <= maskTotalBits
 //@   loop 1 invariant idx-nonneg: 0 <= idx
+//@   loop 1 invariant words: forall c uint8 :: int(c) < len(reg.Components) && int(c) < __idx*64 && m256has(*b, c) ==> idListed(types, idx, c)
 //@   loop 2 invariant idx-nonneg: 0 <= idx
+//@   loop 2 invariant words: forall c uint8 :: int(c) < len(reg.Components) && int(c) < i*64 + __idx && m256has(*b, c) ==> idListed(types, idx, c)
 //@   ensures  length: len(result) >= 0
+//@   ensures  complete: forall c uint8 :: int(c) < len(reg.Components) && m256has(*b, c) ==> (exists k int :: 0 <= k && k < len(result) && result[k].id == c)
 
 //@ func (*bitMask64).toTypes
-//@   serves C18
+//@   serves C18 C20
 //@   requires reg != nil && 0 <= len(reg.Components) && len(reg.Components) <= 64
-//@   loop 1 invariant idx-nonneg: 0 <= idx
+//@   loop 1 invariant idx-nonneg: 0 <= idx && idx <= len(types)
+//@   loop 1 invariant bits: forall c uint8 :: int(c) < __idx && m64has(*b, c) ==> idListed(types, idx, c)
 //@   ensures  length: len(result) >= 0
+//@   ensures  complete: forall c uint8 :: int(c) < len(reg.Components) && m64has(*b, c) ==> (exists k int :: 0 <= k && k < len(result) && result[k].id == c)
